@@ -46,6 +46,8 @@ class Run:
         self.samples = []
         self.assumptions = []
         self.notes = []
+        for old_, new_ in sorted(getattr(prog, "renames", {}).items()):
+            self.notes.append("renamed function recognised by impl + signature: %s is analysed under its pinned name %s" % (new_, old_))
         self.obligations = 0
         self.discharged = 0
         self.disch_by = Counter()
